@@ -15,9 +15,9 @@ import (
 )
 
 type (
-	FileMode = os.FileMode
-	DirEntry = os.DirEntry
-	FileInfo = os.FileInfo
+	FileMode  = os.FileMode
+	DirEntry  = os.DirEntry
+	FileInfo  = os.FileInfo
 	PathError = os.PathError
 )
 
@@ -42,13 +42,13 @@ const (
 
 // Root describes the simulated disk below one storage root.
 type Root struct {
-	Path     string
-	Reported int64 // capacity the disk reports (Usage: Free = Reported - Used)
-	Real     int64 // capacity writes really have (<= Reported models quota / reserved blocks)
-	Used     int64
-	Partial  bool // a failing write first writes what still fits
-	FailCreate int // fail the n-th Create below this root (0 = never)
-	creates  int
+	Path       string
+	Reported   int64 // capacity the disk reports (Usage: Free = Reported - Used)
+	Real       int64 // capacity writes really have (<= Reported models quota / reserved blocks)
+	Used       int64
+	Partial    bool // a failing write first writes what still fits
+	FailCreate int  // fail the n-th Create below this root (0 = never)
+	creates    int
 }
 
 // Disk is the fault state of the simulated file system (one per world; nil = no limits).
@@ -56,14 +56,16 @@ type Disk struct {
 	Roots []*Root
 	Stats struct {
 		Creates, Writes, Closes, Removes, Mkdirs, Opens, ReadDirs uint64
-		ENOSPC, PartialWrites, CreateErrs                        uint64
-		BytesWritten                                             uint64
+		ENOSPC, PartialWrites, CreateErrs                         uint64
+		BytesWritten                                              uint64
 	}
 }
 
 var disk *Disk
 
 // Install sets the simulated disk for the current world (nil removes it).
+//
+//go:norace
 func Install(d *Disk) {
 	disk = d
 	if d == nil {
@@ -83,8 +85,10 @@ func Install(d *Disk) {
 	}
 }
 
+//go:norace
 func Current() *Disk { return disk }
 
+//go:norace
 func (d *Disk) rootOf(path string) *Root {
 	if d == nil {
 		return nil
@@ -100,6 +104,8 @@ func (d *Disk) rootOf(path string) *Root {
 
 // Free reports the free space of the root containing path, ok=false if the path is not on a
 // simulated root.
+//
+//go:norace
 func Free(path string) (free uint64, total uint64, ok bool) {
 	r := disk.rootOf(path)
 	if r == nil {
@@ -112,6 +118,7 @@ func Free(path string) (free uint64, total uint64, ok bool) {
 	return uint64(f), uint64(r.Reported), true
 }
 
+//go:norace
 func MkdirAll(path string, perm FileMode) error {
 	simrt.Mutation("mkdir", path)
 	if disk != nil {
@@ -120,6 +127,7 @@ func MkdirAll(path string, perm FileMode) error {
 	return os.MkdirAll(path, perm)
 }
 
+//go:norace
 func ReadDir(name string) ([]DirEntry, error) {
 	simrt.Yield("os.ReadDir")
 	if disk != nil {
@@ -128,6 +136,7 @@ func ReadDir(name string) ([]DirEntry, error) {
 	return os.ReadDir(name)
 }
 
+//go:norace
 func Remove(name string) error {
 	simrt.Mutation("remove", name)
 	var size int64
@@ -147,7 +156,10 @@ func Remove(name string) error {
 	return err
 }
 
-func Stat(name string) (FileInfo, error)  { simrt.Yield("os.Stat"); return os.Stat(name) }
+//go:norace
+func Stat(name string) (FileInfo, error) { simrt.Yield("os.Stat"); return os.Stat(name) }
+
+//go:norace
 func Lstat(name string) (FileInfo, error) { simrt.Yield("os.Lstat"); return os.Lstat(name) }
 
 // File mirrors the part of *os.File that fs_db and its callers use.
@@ -158,6 +170,7 @@ type File struct {
 	write bool
 }
 
+//go:norace
 func Create(name string) (*File, error) {
 	simrt.Mutation("create", name)
 	r := disk.rootOf(name)
@@ -178,6 +191,7 @@ func Create(name string) (*File, error) {
 	return &File{f: f, path: name, root: r, write: true}, nil
 }
 
+//go:norace
 func Open(name string) (*File, error) {
 	simrt.Yield("os.Open")
 	if disk != nil {
@@ -190,6 +204,7 @@ func Open(name string) (*File, error) {
 	return &File{f: f, path: name}, nil
 }
 
+//go:norace
 func OpenFile(name string, flag int, perm FileMode) (*File, error) {
 	simrt.Mutation("openfile", name)
 	f, err := os.OpenFile(name, flag, perm)
@@ -199,20 +214,28 @@ func OpenFile(name string, flag int, perm FileMode) (*File, error) {
 	return &File{f: f, path: name, root: disk.rootOf(name), write: flag&(O_WRONLY|O_RDWR) != 0}, nil
 }
 
+//go:norace
 func (f *File) Name() string { return f.f.Name() }
 
+//go:norace
 func (f *File) Read(p []byte) (int, error) { return f.f.Read(p) }
 
+//go:norace
 func (f *File) ReadAt(p []byte, off int64) (int, error) { return f.f.ReadAt(p, off) }
 
+//go:norace
 func (f *File) Seek(offset int64, whence int) (int64, error) { return f.f.Seek(offset, whence) }
 
+//go:norace
 func (f *File) Stat() (FileInfo, error) { return f.f.Stat() }
 
+//go:norace
 func (f *File) Sync() error { simrt.Mutation("sync", f.path); return f.f.Sync() }
 
+//go:norace
 func (f *File) Fd() uintptr { return f.f.Fd() }
 
+//go:norace
 func (f *File) Write(p []byte) (int, error) {
 	torn := simrt.Mutation("write", f.path)
 	if torn {
@@ -256,8 +279,10 @@ func (f *File) Write(p []byte) (int, error) {
 	return n, err
 }
 
+//go:norace
 func (f *File) WriteString(s string) (int, error) { return f.Write([]byte(s)) }
 
+//go:norace
 func (f *File) Close() error {
 	if f.write {
 		simrt.Mutation("close", f.path)
